@@ -98,4 +98,123 @@ theorem secDefinition_ok (length : Int) (v : Bytes) (hv : noCR v = true) : SecOK
     exact tryAll_liftF 0 (by omega) length f _ t o r _ rest (by simp [notNames]) (definitionField 12)
       (by simp [fieldParsers]) hr
 
+def secAccession (l : Bytes) : Section :=
+  ⟨bs "ACCESSION   " ++ (l ++ [10]), fun (f, t, o, r) => ({ f with accession := l }, t, o, r), 1⟩
+
+theorem secAccession_ok (length : Int) (l : Bytes) (hl : noEOL l = true) : SecOK length (secAccession l) := by
+  unfold secAccession
+  apply secOK_of_tryAll
+  · exact ⟨65, bs "CCESSION   " ++ (l ++ [10]), by simp [bs], by decide⟩
+  · intro rest; simp [startsField, refStop, refAltList, bs, List.isPrefixOf]; decide
+  · intro s rest hrest
+    obtain ⟨f, t, o, r⟩ := s
+    have e2 : bs "ACCESSION   " ++ (l ++ [10]) ++ rest = bs "ACCESSION   " ++ (l ++ 10 :: rest) := by
+      simp [List.append_assoc]
+    rw [e2]
+    have hr := accession_roundtrip f l rest [bs "ACCESSION   " ++ (l ++ 10 :: rest)] hl
+      (startsField_not_sp 12 (by omega) rest hrest)
+    exact tryAll_liftF 1 (by omega) length f _ t o r _ rest (by simp [notNames, fieldNames, bs, List.isPrefixOf])
+      (accessionField 12) (by simp [fieldParsers]) hr
+
+def secVersion (l : Bytes) : Section :=
+  ⟨bs "VERSION     " ++ (l ++ [10]), fun (f, t, o, r) => ({ f with version := l }, t, o, r), 1⟩
+
+theorem secVersion_ok (length : Int) (l : Bytes) (hl : noEOL l = true) : SecOK length (secVersion l) := by
+  unfold secVersion
+  apply secOK_of_tryAll
+  · exact ⟨86, bs "ERSION     " ++ (l ++ [10]), by simp [bs], by decide⟩
+  · intro rest; simp [startsField, refStop, refAltList, bs, List.isPrefixOf]; decide
+  · intro s rest hrest
+    obtain ⟨f, t, o, r⟩ := s
+    have e2 : bs "VERSION     " ++ (l ++ [10]) ++ rest = bs "VERSION     " ++ (l ++ 10 :: rest) := by
+      simp [List.append_assoc]
+    rw [e2]
+    have hr := version_roundtrip f l rest [bs "VERSION     " ++ (l ++ 10 :: rest)] hl
+      (startsField_not_sp 12 (by omega) rest hrest)
+    exact tryAll_liftF 2 (by omega) length f _ t o r _ rest (by simp [notNames, fieldNames, bs, List.isPrefixOf])
+      (versionField 12) (by simp [fieldParsers]) hr
+
+def secDblink (p : Bytes × Bytes) (ps : List (Bytes × Bytes)) : Section :=
+  ⟨dblinkText (p :: ps) true, fun (f, t, o, r) => ({ f with dblink := dictSetAll f.dblink (p :: ps) }, t, o, r), 1⟩
+
+theorem secDblink_ok (length : Int) (p : Bytes × Bytes) (ps : List (Bytes × Bytes))
+    (hps : ∀ q ∈ p :: ps, pairOk q = true) : SecOK length (secDblink p ps) := by
+  unfold secDblink
+  have ht : ∀ rest, dblinkText (p :: ps) true ++ rest =
+      bs "DBLINK" ++ (sp 6 ++ ((p.1 ++ 58 :: 32 :: p.2) ++ 10 :: (dblinkMoreText ps ++ rest))) := dblinkText_eq p ps
+  apply secOK_of_tryAll
+  · have := ht []
+    simp only [List.append_nil] at this
+    exact ⟨68, bs "BLINK" ++ (sp 6 ++ ((p.1 ++ 58 :: 32 :: p.2) ++ 10 :: dblinkMoreText ps)), by rw [this]; simp [bs], by decide⟩
+  · intro rest; rw [ht]; simp [startsField, refStop, refAltList, bs, List.isPrefixOf]; decide
+  · intro s rest hrest
+    obtain ⟨f, t, o, r⟩ := s
+    have hr := dblink_roundtrip f p ps rest [dblinkText (p :: ps) true ++ rest] hps
+      (startsField_not_sp 12 (by omega) rest hrest)
+    refine tryAll_liftF 3 (by omega) length f _ t o r _ rest ?_ (dblinkField 12) (by simp [fieldParsers]) hr
+    rw [ht]; simp [notNames, fieldNames, bs, List.isPrefixOf]
+
+def secKeywords (kws : List Bytes) : Section :=
+  ⟨bs "KEYWORDS    " ++ (addPrefix indent (wrapSpace (joinWith (bs "; ") kws ++ [46])) ++ [10]),
+   fun (f, t, o, r) => ({ f with keywords := kws }, t, o, r), 1⟩
+
+theorem secKeywords_ok (length : Int) (kws : List Bytes) (h : listOk kws = true) : SecOK length (secKeywords kws) := by
+  unfold secKeywords
+  apply secOK_of_tryAll
+  · exact ⟨75, bs "EYWORDS    " ++ (addPrefix indent (wrapSpace (joinWith (bs "; ") kws ++ [46])) ++ [10]), by simp [bs], by decide⟩
+  · intro rest; simp [startsField, refStop, refAltList, bs, List.isPrefixOf]; decide
+  · intro s rest hrest
+    obtain ⟨f, t, o, r⟩ := s
+    have e2 : bs "KEYWORDS    " ++ (addPrefix indent (wrapSpace (joinWith (bs "; ") kws ++ [46])) ++ [10]) ++ rest =
+        bs "KEYWORDS    " ++ (addPrefix indent (wrapSpace (joinWith (bs "; ") kws ++ [46])) ++ 10 :: rest) := by
+      simp [List.append_assoc]
+    rw [e2]
+    have hr := fun st => keywords_roundtrip f kws rest st h (startsField_not_sp 12 (by omega) rest hrest)
+    exact tryAll_liftF 4 (by omega) length f _ t o r _ rest (by simp [notNames, fieldNames, bs, List.isPrefixOf])
+      (keywordsField 12) (by simp [fieldParsers]) (hr _)
+
+def secSource (species name : Bytes) (taxon : List Bytes) : Section :=
+  ⟨bs "SOURCE      " ++ (addPrefix indent (wrapSpace species) ++ 10 ::
+      (bs "  ORGANISM  " ++ (addPrefix indent (wrapSpace name) ++ 10 ::
+      (indent ++ (addPrefix indent (wrapSpace (joinWith (bs "; ") taxon ++ [46])) ++ [10]))))),
+   fun (f, t, o, r) => ({ f with species := wrapSpace species, organism := name, taxon := taxon }, t, o, r), 1⟩
+
+theorem secSource_ok (length : Int) (species name : Bytes) (taxon : List Bytes)
+    (hs : noCR (wrapSpace species) = true) (hn : organismOk name = true) (ht : taxonOk taxon = true) :
+    SecOK length (secSource species name taxon) := by
+  unfold secSource
+  apply secOK_of_tryAll
+  · exact ⟨83, _, by simp [bs]; rfl, by decide⟩
+  · intro rest; simp [startsField, refStop, refAltList, bs, List.isPrefixOf]; decide
+  · intro s rest hrest
+    obtain ⟨f, t, o, r⟩ := s
+    have e2 : bs "SOURCE      " ++ (addPrefix indent (wrapSpace species) ++ 10 ::
+        (bs "  ORGANISM  " ++ (addPrefix indent (wrapSpace name) ++ 10 ::
+        (indent ++ (addPrefix indent (wrapSpace (joinWith (bs "; ") taxon ++ [46])) ++ [10]))))) ++ rest =
+        bs "SOURCE      " ++ (addPrefix indent (wrapSpace species) ++ 10 ::
+        (bs "  ORGANISM  " ++ (addPrefix indent (wrapSpace name) ++ 10 ::
+        (indent ++ (addPrefix indent (wrapSpace (joinWith (bs "; ") taxon ++ [46])) ++ 10 :: rest))))) := by
+      simp [List.append_assoc]
+    rw [e2]
+    have hr := fun st => source_roundtrip f species name taxon rest st hs hn ht (startsField_not_sp 12 (by omega) rest hrest)
+    exact tryAll_liftF 5 (by omega) length f _ t o r _ rest (by simp [notNames, fieldNames, bs, List.isPrefixOf])
+      (sourceField 12) (by simp [fieldParsers]) (hr _)
+
+def secComment (v : Bytes) : Section :=
+  ⟨bs "COMMENT     " ++ (addPrefix indent v ++ [10]), fun (f, t, o, r) => ({ f with comments := f.comments ++ [v] }, t, o, r), 1⟩
+
+theorem secComment_ok (length : Int) (v : Bytes) (hv : noCR v = true) : SecOK length (secComment v) := by
+  unfold secComment
+  apply secOK_of_tryAll
+  · exact ⟨67, bs "OMMENT     " ++ (addPrefix indent v ++ [10]), by simp [bs], by decide⟩
+  · intro rest; simp [startsField, refStop, refAltList, bs, List.isPrefixOf]; decide
+  · intro s rest hrest
+    obtain ⟨f, t, o, r⟩ := s
+    have e2 : bs "COMMENT     " ++ (addPrefix indent v ++ [10]) ++ rest = bs "COMMENT     " ++ (addPrefix indent v ++ 10 :: rest) := by
+      simp [List.append_assoc]
+    rw [e2]
+    have hr := fun st => comment_roundtrip f v rest st hv (startsField_not_sp 12 (by omega) rest hrest)
+    exact tryAll_liftF 7 (by omega) length f _ t o r _ rest (by simp [notNames, fieldNames, bs, List.isPrefixOf])
+      (commentField 12) (by simp [fieldParsers]) (hr _)
+
 end Gts.GenBank
